@@ -1,12 +1,17 @@
 #!/bin/bash
-# usage: try_mutant.sh <patch.diff> <property> [tier]  — applies the patch to /repo, runs the check, reverts
-patch=$1; prop=$2; tier=${3:-quick}
-cd /repo || exit 2
-git diff --quiet || { echo "/repo is dirty"; exit 2; }
+# usage: try_mutant.sh <patch.diff> <property> [tier]  — applies the patch to the repository, runs the check, reverts.
+# Inside `vp run --with-repo` the repository is the snapshot $VP_RUN_REPO and the checks are the snapshot's own.
+patch=$(realpath "$1"); prop=$2; tier=${3:-quick}
+repo=${VP_RUN_REPO:-/repo}
+verif=$(cd "$(dirname "$0")/.." && pwd)
+out=$(mktemp /tmp/try_mutant.XXXXXX)
+cd "$repo" || exit 2
+git diff --quiet || { echo "$repo is dirty"; exit 2; }
 git apply "$patch" || { echo "patch does not apply"; exit 2; }
-cd /verif; start=$(date +%s)
-./check $prop $tier > /tmp/try_mutant.out 2>&1; rc=$?
+cd "$verif"; start=$(date +%s)
+./check $prop $tier > $out 2>&1; rc=$?
 end=$(date +%s)
-git -C /repo checkout -- .
-grep -E "violated|VIOLATION|HARNESS|expected:|observed:" /tmp/try_mutant.out | cut -c1-260 | head -6
+git -C "$repo" checkout -- .
+grep -E "violated|VIOLATION|HARNESS|expected:|observed:" $out | cut -c1-260 | head -6
+rm -f $out
 echo "exit=$rc secs=$((end-start))"
